@@ -11,7 +11,7 @@ Notation pub_trace64 := (pub_trace f_scale_delta f_scale_pos).
 Notation Hok := float_scalings_ok.
 
 Definition ff_premises (maxr conf relay : Z) (so : option Z) : Prop :=
-  0 <= maxr <= RMAX /\ 0 <= conf < WMAX /\ start_ok maxr relay so.
+  0 <= maxr <= RMAX /\ 0 <= conf < WMAX /\ start_ok relay so.
 
 Lemma c18_inv0 : forall maxr conf relay ans so f0,
   ff_premises maxr conf relay so -> new_ff64 maxr conf relay ans so = Ok f0 ->
@@ -98,12 +98,39 @@ Proof.
 Qed.
 
 Lemma c18_floor : forall maxr conf relay ans f0,
-  0 <= maxr <= RMAX -> 1 < conf < WMAX -> 0 <= relay <= maxr -> 0 < maxr ->
+  0 <= maxr <= RMAX -> 1 < conf < WMAX -> 0 <= relay <= maxr ->
   new_ff64 maxr conf relay ans None = Ok f0 ->
   relay <= ff_cur f0 <= maxr.
 Proof.
-  intros maxr conf relay ans f0 Hm Hc Hr Hp H.
-  assert (Hs : start_ok maxr relay None) by (cbn; auto).
+  intros maxr conf relay ans f0 Hm Hc Hr H.
+  assert (Hs : start_ok relay None) by (cbn; lia).
+  assert (Hc0 : 0 <= conf < WMAX) by lia.
+  assert (Hc1 : 1 < conf) by lia.
+  destruct (new_ff_inv _ _ Hok _ _ _ _ _ _ Hm Hc0 Hs H) as (Hi & He & _ & _ & Hx).
+  destruct (Hx Hc1) as (_ & Hge).
+  destruct Hi as (_ & Hc' & _). lia.
+Qed.
+
+(* a start above the ceiling (supplied, relay fee at conf >= 1008, or an
+   estimate with ceiling 0) is capped: the initial rate IS the ceiling *)
+Lemma c18_start_clamped : forall maxr conf relay ans s f0,
+  1 < conf -> maxr < s ->
+  new_ff64 maxr conf relay ans (Some s) = Ok f0 ->
+  ff_cur f0 = maxr /\ ff_start f0 = maxr /\ ff_end f0 = maxr.
+Proof.
+  intros maxr conf relay ans s f0 Hc Hs H. unfold new_ff64, new_ff in H.
+  assert (E1 : (conf <=? 1) = false) by (apply Z.leb_gt; lia). rewrite E1 in H.
+  assert (E2 : (maxr <? s) = true) by (apply Z.ltb_lt; lia). rewrite E2 in H.
+  destruct (_ && _); [discriminate|]. inversion H; subst. cbn. auto.
+Qed.
+
+Lemma c18_estimated_start_clamped : forall maxr conf relay ans f0,
+  0 <= maxr <= RMAX -> 1 < conf < WMAX -> 0 <= relay ->
+  new_ff64 maxr conf relay ans None = Ok f0 ->
+  Z.min relay maxr <= ff_cur f0 <= maxr.
+Proof.
+  intros maxr conf relay ans f0 Hm Hc Hr H.
+  assert (Hs : start_ok relay None) by (cbn; lia).
   assert (Hc0 : 0 <= conf < WMAX) by lia.
   assert (Hc1 : 1 < conf) by lia.
   destruct (new_ff_inv _ _ Hok _ _ _ _ _ _ Hm Hc0 Hs H) as (Hi & He & _ & _ & Hx).
@@ -133,7 +160,7 @@ Qed.
 Lemma c18_published_trace_ok :
   forall ins weight floor budget maxrate h0 dl relay ans so vs bl,
   0 <= budget <= BMAX -> 1 <= weight < WMAX -> 0 <= maxrate <= RMAX ->
-  start_ok (max_fee_rate_allowed64 budget weight maxrate) relay so ->
+  start_ok relay so ->
   let tr := pub_trace64 ins weight floor budget maxrate h0 dl relay ans so vs bl in
   Forall (entry_ok ins floor budget maxrate) tr /\ Sorted Z.le (map fst tr).
 Proof.
@@ -158,17 +185,6 @@ Proof.
   - cbn [map fst]. constructor; auto.
     destruct (blocks f_scale_pos ins weight floor budget dl f1 bl) as [|e0 rest]; cbn; constructor.
     inversion Hall; subst. cbn in *. lia.
-Qed.
-
-(* the refutation witness (DESIGN 7-b): supplied start above the ceiling *)
-Lemma c18_start_above_end_refuted :
-  exists maxr conf relay ans s f0,
-    new_ff64 maxr conf relay ans (Some s) = Ok f0 /\
-    maxr < ff_cur f0 /\
-    ff_cur (fstep64 f0 FInc) < ff_cur f0.
-Proof.
-  exists 500, 10, 253, (EstOk 253), 1000.
-  eexists. split; [vm_compute; reflexivity|]. split; vm_compute; reflexivity.
 Qed.
 
 Lemma c18_topup : forall extra utxos l l' st,
